@@ -266,6 +266,29 @@ def seq_events(rng, tier):
                 tid += 1
                 evs.append({"ev": "SeqRun", "tid": tid, "kind": "Sequential", "steps": list(ids), "extra": extra,
                             "calls": [list(c) for c in log], "out": list(out)})
+    # the same with TENSOR data and tensor-valued extras (a pipeline may treat tensors specially - move them to a device, cast them): the value
+    # records the order (each stage maps v to 10 v + id), every stage must still receive the positional and the keyword extra
+    import torch
+
+    class TStage:
+        def __init__(self, sid, log):
+            self.sid, self.log = sid, log
+
+        def __call__(self, v, *a, **k):
+            ok = len(a) == 1 and float(a[0]) == 7.0 and set(k) == {"k"} and float(k["k"]) == 7.0
+            self.log.append([self.sid, 7 if ok else (0 if (not a and not k) else -1)])
+            return v * 10 + self.sid
+    for n in (1, 2, 3, 4):
+        for ids in (list(itertools.product([1, 2, 3], repeat=n)) if n <= 2 else [tuple(rng.choice([1, 2, 3]) for _ in range(n)) for _ in range(6)]):
+            for form in ("tensor", "float"):
+                log = []
+                m = SequentialModel([TStage(s, log) for s in ids])
+                ex = (torch.tensor(7.0), {"k": torch.tensor(7.0)}) if form == "tensor" else (7.0, {"k": 7.0})
+                out = m(torch.zeros(1), ex[0], **ex[1])
+                digits = [int(ch) for ch in str(int(float(out.reshape(-1)[0])))] if float(out.reshape(-1)[0]) > 0 else []
+                tid += 1
+                evs.append({"ev": "SeqRun", "tid": tid, "kind": "Sequential", "steps": list(ids), "extra": 7, "calls": [list(c) for c in log], "out": digits,
+                            "data": "tensor", "extras": form})
     for perm in itertools.permutations([1, 2, 3, 4]):
         for extra in (0, 7):
             log = []
